@@ -281,6 +281,22 @@ def _occ_pair(s, P, Rc):
         if m.how == "setitem" and m.key.op == "tuple" and len(m.key.a) == 3 and m.key.a[2].op == "const":
             stores[int(m.key.a[2].a[0])] = _reduce_axis(m.val, "np.mean", "np.max")
     inner = stores.get(0) is not None and stores.get(1) is not None and stores[0][0] is stores[1][0] and stores[0][1] == 0 and stores[1][1] == 1
+    # rows and columns are the two plain columns of one index table: np.ix_(X[:, 0], X[:, 1])
+    ix = lp[1]
+    cols_ok = False
+    if ix.op == "call" and call_name(ix) == "np.ix_" and len(ix.a[1]) == 2:
+        a0, a1 = ix.a[1]
+
+        def col(z):
+            if z.op == "sub" and z.a[1].op == "tuple" and len(z.a[1].a) == 2 and z.a[1].a[0].op == "slice" and z.a[1].a[1].op == "const":
+                return z.a[0], z.a[1].a[1].a[0]
+            return None, None
+
+        x0, k0 = col(a0)
+        x1, k1 = col(a1)
+        cols_ok = x0 is not None and x0 is x1 and (k0, k1) == (0, 1)
+    if not cols_ok:
+        return False, "the relevant rows/columns are not the two plain columns of one (reference index, estimate index) table: %s - a transformation of one side only (de-duplication, sorting) weights precision and recall differently" % tm.show(ix, 3)
     good = lp[0] == 0 and lr[0] == 1 and p[1] == 0 and r[1] == 1 and lp[1] is lr[1] and lp[2] is lr[2] and inner
     return good, "precision = mean(max(layer0[rel], axis=0)) with layer0 = mean(max(s, axis=0)); recall = the same with layer 1 and axis=1 (found layers %s/%s, axes %s/%s, inner %s)" % (lp[0], lr[0], p[1], r[1], inner)
 
@@ -388,7 +404,19 @@ def rule_closedwindow(ctx):
             yield o
 
 
+def rule_segtwin(ctx):
+    """Shared with C12.PIPELINE: inside chord.evaluate overseg and underseg receive the *same* two merged segmentations,
+    so evaluate(a, b)["overseg"] is evaluate(b, a)["underseg"] (given underseg = swap(overseg), rule TWINCALL)."""
+    from . import c12
+
+    for o in c12.rule_pipeline(ctx):
+        if o.construct in ("chord.evaluate:merged-ref", "chord.evaluate:merged-est", "chord.evaluate:underseg", "chord.evaluate:overseg", "chord.evaluate:seg"):
+            o.rule = "C06.SEGTWIN"
+            yield o
+
+
 RULES = [
+    ("C06.SEGTWIN", 5, rule_segtwin),
     ("C06.CLOSEDWINDOW", 3, rule_closedwindow),
     ("C06.PRMIRROR", 12, rule_prmirror),
     ("C06.AXISMIRROR", 13, rule_axismirror),
